@@ -10,13 +10,13 @@ CHECKS = {
          "bounded-exhaustive enumeration of body shapes x every single-field corruption against a reference balance checker over known openings (objects); snapshot exploration of fork-universe histories with sum invariants on every state (histories)",
          "c01",
          "Objects: every shape inputs 0-2 x outputs 1-3 x kernels 1-2 x offset {0,k} (quick 36 shapes with rotating kernel variant; thorough the full product with Plain/HeightLocked/NRD on two worlds) as a transaction and as a block body with coinbase on a real chain, plus every applicable entry of a closed corruption catalogue (amount, fee, offset, dropped/duplicated/foreign kernel, swapped or foreign proofs and signatures, excess with an H component, coinbase amount/flag forgeries, split or diverted reward), re-rooted and re-mined so that only the targeted rule can fail. Transaction::validate, Block::validate and Chain::process_block must accept iff a reference over the openings (integer values, 256-bit scalars mod n written in the harness; never touches a commitment) accepts; after every accepted block validate(true/false), stored block sums and the total offset equal the values computed from the openings. Histories: on every state of the C02 fork universes Chain::validate passes and get_block_sums of every best-chain block equals the sums over the reference unspent set and kernels.",
-         "The reference never sums commitments; secp commit_sum is used only to turn reference scalars into the expected stored sums.",
+         "The reference never sums commitments; secp commit_sum is used only to turn reference scalars into the expected stored sums. Wide bodies (33 kernels in quick; 31, 32, 33, 34, 60 in thorough) carry every corruption at every kernel, so batched signature verification is covered at every position; the reference does not model block weight, so wide bodies stop where the heaviest corruption still fits the AutomatedTesting weight limit.",
          "DESIGN.md §4 C01"),
  "C02": ("model_checking",
          "explicit-state exploration of delivery histories on the real Chain (snapshot DFS with fingerprint memoisation, invalid blocks as probes at every state) against a reference ledger",
          "c02",
          "Every parent-before-child delivery history of fork-tree universes (same coinbase spent on both forks, output created and spent on a fork that loses then wins, the same commitment on both forks, re-created commitments, reorgs in both directions) is executed on the real Chain; at every reached state every reference-invalid block (double spend across blocks and inside one block, never-created and fork-foreign inputs, duplicate of an unspent commitment) is delivered as a probe. After every event process_block's verdict must equal the reference ledger's, and get_unspent of every commitment of the universe (position and height), unspent_outputs_by_pmmr_index and validate_inputs must equal the replay of the winning chain; closing and reopening must reproduce the state. Exhaustive over the stated universes and orders.",
-         "Reference ledger written from the property text (src/ledger.rs); orphan orders are C03; the compaction part runs a 90-block chain (head block spends an old output whose MMR sibling is spent) through every order of {compact, reopen, next block, 3-block fork that reorgs the head out}.",
+         "Reference ledger written from the property text (src/ledger.rs); orphan orders are C03; each universe is explored at header versions 1-3, lifted by 12 blocks to version 5, and lifted with every header delivered before any body; every new state's history is also executed on one long-lived Chain object (live cross-check); the compaction part runs a 90-block chain (head block spends an old output whose MMR sibling is spent) through every order of {compact, reopen, next block, 3-block fork that reorgs the head out}.",
          "DESIGN.md §4 C02"),
  "C03": ("model_checking",
          "stateless exploration (replay DFS with memoisation) of every delivery order over every small fork tree x difficulty vector on the real Chain, fork-choice model as oracle",
@@ -40,19 +40,19 @@ CHECKS = {
          "snapshot exploration of delivery histories with a closed failure-stage catalogue delivered as probes at every reached state; before/after fingerprint and twin differential oracles",
          "c06",
          "At every state of every delivery history of a two-fork universe with spends and reorgs in both directions, every applicable corrupted block of a closed catalogue (PoW, header rules, kernel signature, range proof, kernel offset, coinbase flags, wrong roots / MMR sizes after the working state was modified, double spend, unknown input, immature coinbase; header-first and header-batch delivery) and every valid losing-fork block is delivered: the best-chain fingerprint must be unchanged, nothing but an itself-valid header (and the fork block) may be remembered, and the valid sibling must then be processed exactly as by a twin that never saw the bad input.",
-         "One corruption per failure stage (src/corrupt.rs); universe of 12 valid blocks.",
+         "One corruption per failure stage (src/corrupt.rs); universe of 12 valid blocks, explored at header versions 1-3 and lifted by 12 blocks to version 5; every new state's history is also executed on one long-lived Chain object that is offered every probe between any two events, and must end in the same best-chain state.",
          "DESIGN.md §4 C06"),
  "C08": ("model_checking",
          "explicit-state exploration (DFS over directory snapshots, memoised) of the real on-disk prunable PMMRBackend through the chain's usage protocol against an unpruned reference MMR",
          "c08",
          "For a fixed-size and a variable-size element type, every history of up to 3 (quick) / 4 (thorough) units of work - optional block-by-block rewind to any earlier boundary not below the compaction cutoff, then one or two blocks of appends and removals of any <= 2 live leaves, then sync or discard - interleaved with up to two compactions at any boundary and a reopen, is executed on the real backend; after every step the view through PMMR::at must equal an unpruned reference: root, size, data and hash of every live leaf, None for spent leaves, a verifying Merkle proof for every live leaf, leaf_pos_iter, leaf_idx_iter(from) for every from, n_unpruned_leaves, PMMR::validate.",
-         "Rewinds stay at or above the last compaction cutoff and precede the appends of a unit (the store's usage protocol). Chain-level compaction is exercised by C09's compaction scenarios, not by a separate twin here.",
+         "Rewinds stay at or above the last compaction cutoff and precede the appends of a unit (the store's usage protocol). The snapshot parts open a fresh backend object per step (memoisation on directory contents is then sound) from the empty backend and from one holding spent leaves; the live parts keep ONE backend object along every path of 4 (quick) / 6 (thorough) ops over a narrower alphabet that includes units which do not rewind and read-only units, so that state kept in memory between units of work is explored. Chain-level compaction: C02 compaction part and C09 compaction scenarios.",
          "DESIGN.md §4 C08"),
  "C09": ("fault_enumeration",
          "exhaustive crash-point enumeration: every durable step of each scenario is a kill point (child process aborted by hook), judged by reopen + validate + reference unspent set + re-delivery vs uninterrupted twin",
          "c09",
          "For each scenario (plain extension, fork block, reorg with spends, header-by-header and header-batch reorg, compaction; thorough adds compaction+block, first start, reorg after compaction) every crash point the interrupted operation executes (74/4/74/22/18/42 in quick, 567 in thorough) is exercised: a child process is killed at it, a second process reopens the directory and checks Chain::init, allowed head, validate(false), the unspent set against the reference replay, and equality with an uninterrupted twin after re-delivery. Genuine defects found on the unchanged tree are listed per (scenario, crash label, failure kind) in known_findings.json; any other failing crash point is a VIOLATION.",
-         "Kill = process death (page cache survives). Crash points are the hook call sites (MANIFEST.hooks). 270 known findings share three root causes (DESIGN §7); a change that fails at a crash point already listed with the same failure kind is masked.",
+         "Kill = process death (page cache survives). Crash points are the hook call sites (MANIFEST.hooks). Quick: 8 scenarios incl. coinbase-only and spending extensions under version-5 headers (382 crash points). Thorough: 15 scenarios (adds compaction+block, first start, reorg after compaction, restart of a consistent / compacted node, orphan cascade, bodies of a fork whose headers are known) and, for every crash point the node recovers from, a SECOND kill at every crash point of the restart (35 429 histories). About 1 070 known findings share four root causes (DESIGN 9.4); a change that fails at a crash history already listed with the same failure kind is masked.",
          "DESIGN.md §4 C09"),
  "C10": ("exploration",
          "bounded-exhaustive enumeration: value catalogue x protocol versions (round trip, byte identity, hash invariance vs a reference layout) and every canonical-form mutation operator at every site of a reference structure map (every tag byte x 256 values)",
@@ -76,7 +76,7 @@ CHECKS = {
          "snapshot exploration of delivery histories of fork universes with threshold placements (one below / at / above) delivered as blocks and probes; rule model over the fork tree as oracle",
          "c13",
          "Two universes: (1) coinbase spends one below / at / above creation height + maturity on the same fork, on the other fork and with the coinbase below the fork point, forks with different output counts per height (the cutoff is read through the header maturity blocks back on that fork), height-locked kernels one below / at / above on both forks; (2) NRD enabled: duplicate-excess kernels r-1 / r / r+1 apart on one fork, on the other fork, and across rewinds. Every parent-before-child delivery order (both reorg directions, so the rules are evaluated in process_block and inside rewind_and_apply_fork); one-below blocks are probes at every state. process_block must accept iff the rule model accepts.",
-         "AutomatedTesting constants (maturity 3, header version 4 from height 9). Pool admission clauses are covered by C14 when claimed.",
+         "AutomatedTesting constants (maturity 3, header version 4 from height 9). The maturity universe is explored at header versions 1-3, lifted by 12 blocks to version 5, and lifted with every header delivered before any body. Part `pool` decides the pool admission clauses: every interleaving of next main/fork body and header of a two-fork universe, every threshold transaction offered to a fresh TransactionPool (the engine of C14's c13-pool part). Every new state's history is also executed on one long-lived Chain object (live cross-check).",
          "DESIGN.md §4 C13"),
  "C07": ("exploration",
          "bounded-exhaustive enumeration of sizes/positions/leaves/corruptions on the real pmmr code vs an explicitly built reference forest",
@@ -93,37 +93,37 @@ CHECKS = {
          "explicit-state exploration (DFS over directory snapshots) of the real TxHashSet / Extension / BitmapAccumulator through the extension seam with synthetic multi-chunk blocks, against a from-scratch accumulator and an independent chunk-MMR reference",
          "c15",
          "Histories up to depth 3 (quick) / 4 (thorough) over {apply a block with k new outputs (600, 1024 / 1, 600, 1023, 1025) and a spend selection (none, first/last of chunk 0, first of chunk 1, every other leaf of the oldest chunk, all of the last partial chunk, all of the oldest chunk, all of chunk 1) on the head or on any ancestor of the head (rewind across chunk boundaries and re-apply), a rolled-back unit, reopen}: after every step and after reopening, the committed bitmap root must equal an accumulator initialised from scratch over the reference unspent set and an independently hashed chunk MMR, and the accumulator's bit set must equal the reference unspent set. Output counts span up to 4 chunks.",
-         "The seam replicates pipe::rewind_and_apply_fork minus the validations synthetic blocks cannot pass (Testnet limits so that 1000-output blocks can be read back). The 'tampered output_root is rejected' clause is exercised by C06 (late:output_root-flip probe at every state).",
+         "Explored from the empty state and from a state that already holds one block of 1025 outputs (two chunks). The seam replicates pipe::rewind_and_apply_fork minus the validations synthetic blocks cannot pass (Testnet limits so that 1000-output blocks can be read back). The 'tampered output_root is rejected' clause is exercised by C06 (late:output_root-flip probe at every state).",
          "DESIGN.md §4 C15"),
  "C16": ("model_checking",
          "bounded-exhaustive enumeration of prune/compaction states x segment heights x indices x every single corruption on the real PMMRBackend (segments); stateless exploration (replay DFS, memoised) of every arrival order of the segment multiset on a receiving Chain's Desegmenter with the sync loop interleaved, twin differential (end-to-end); archive path with file corruptions",
          "c16",
          "Segments: every assignment of five leaf histories (unspent, spent+compacted, compacted by a second compaction, spent uncompacted, spent after the archive point) to n <= 5 (quick) / 7 (thorough) leaves plus structured families up to 24 / 64 leaves on a real on-disk prunable backend; for heights 0..4 and every index Segment::from_pmmr must produce a segment that validate / validate_with accept against an independently hashed reference, and every single corruption of a part the root depends on (leaf data, positions, hashes, proof, identifier, omission of an unspent leaf, hidden leaves, wrong merge side) must be refused; bitmap segments likewise. End-to-end: source chains (no spends, spends before/after/both sides of the archive header, compacted before serving) served to a header-only receiver with small segment heights (hook H7); every arrival order of the pending honest segments with duplicates and the sync loop's own calls interleaved, every corrupted copy offered at every honest state: the final head, roots, unspent set and validate(false) equal a twin that processed every block, and a tainted history never finalises other roots. Archive path txhashset_read -> txhashset_write with per-file corruptions.",
-         "Nodes serve segment heights >= 7; a height-0 segment next to a spent sibling cannot be produced (counted, not judged). Follow-up exploration of accepted corrupted copies is limited (counted as not explored).",
+         "The compacted source chain also spends the genesis output (leaves 0 and 1 compacted away); corruptions include a fully spent segment that claims a higher all-spent ancestor than the bitmap allows. Nodes serve segment heights >= 7; a height-0 segment next to a spent sibling cannot be produced (counted, not judged). Follow-up exploration of accepted corrupted copies is limited (counted as not explored).",
          "DESIGN.md §4 C16"),
  "C17": ("model_checking",
          "controlled-scheduler (CHESS-style) exploration of the real Chain with real OS threads: every schedule up to a preemption bound, lock state mirrored for deadlock detection",
          "c17",
          "Under --cfg grin_verif every util::RwLock acquisition/release, the LMDB writer lock and the store's polling loops report to a scheduler owned by the harness: exactly one registered thread runs at a time, a thread whose request cannot be granted is disabled (a parked writer blocks new readers, as in parking_lot), 'no thread enabled' = deadlock. Every schedule with <= 1 preemption (quick; <= 2 thorough) of harnesses of 2-3 threads x 1-3 operations chosen to collide (competing fork blocks + reader, header-first + block + reader, block + validate_tx + get_unspent, miner template + block; thorough adds reorg + readers, validate + header, compact + block + reader, segmenter + block) runs on a fresh copy of a prepared chain. Oracles: no deadlock/livelock/panic, operations return only what a correct node may return, a reported head names a stored block, observed total difficulty never decreases, the final best-chain state is one a sequential order of the operations produces, validate(false) passes.",
-         "Scheduling points are lock operations (data outside these locks is invisible to the scheduler); preemption bound 1/2; the store's resize thread is not modelled (databases stay below the resize threshold); header-chain memory is excluded from the serializability comparison (process_block commits its header step separately by design).",
+         "Scheduling points are lock operations (data outside these locks is invisible to the scheduler); preemption bound 1/2; databases stay below the resize threshold here (the resize waiter is explored by C18's concurrent part); header-chain memory is excluded from the serializability comparison (process_block commits its header step separately by design). Quick: harnesses a b c d (forks/readers/pool/miner against block writers), r1 r2 (all 14 public read APIs against a block / header writer), e2 (Chain::compact against a block on a 90-block chain); thorough adds a2 g e f and bound 2 for a-d.",
          "DESIGN.md §4 C17 + Appendix A"),
  "C18": ("model_checking",
          "explicit-state exploration of batch operation sequences on the real LMDB Store against a nested-transaction map model; exhaustive growth sequences forcing map resizes; crash-point enumeration around commit",
          "c18",
          "Every sequence up to depth 7 (quick) / 9 (thorough) over {batch, child (two nesting levels), put x6 over two key spaces, delete x3, commit, drop, reopen} runs on a real Store; after every operation every key is read inside the innermost open level (get_ser, exists, iter) and through the Store (outside view) and compared with a stack-of-overlays model: writes visible inside and in children, invisible outside until the outermost commit, all at once then, dropped levels leave no trace, a child's writes take effect only if every enclosing level commits, durable across reopen. Growth: every well-formed sequence of {48 KiB write, pair write, open iterator, drain iterator, reopen} on a store pre-filled to 65 % of its 1 MiB map (one or two automatic resizes): no operation fails, every committed value reads back byte-exact, iterators see their snapshot. Crash: a kill at every crash point around the commit of a flat and a nested two-key-space batch leaves all or nothing, all once commit returned.",
-         "Single-threaded: interleavings with concurrent readers/iterators/writers and a resize in flight (the scheduler part of DESIGN C18) are not claimed by this check. Batches stay within the 10 % headroom the resize rule guarantees; a read view held by the writing thread itself is outside the property.",
+         "Part `concurrent`: under the controlled scheduler (src/sched.rs; the resize waiter thread is a scheduled participant, hook ba08ede92) every schedule up to 1 (quick) / 2 (thorough) preemptions of two harnesses on a store filled just past the resize threshold: {iterator holder with nested reads; writer needing the map enlarged; reader} and {view holder that commits a small batch before closing its view; writer larger than the old map's headroom}: no deadlock/livelock, every operation Ok, iterators see a batch entirely or not at all, nothing committed is lost. Sequential growth batches stay within the 10 % headroom the resize rule guarantees; a read view held by the writing thread itself while it makes a LARGE write is outside the property.",
          "DESIGN.md §4 C18"),
  "C19": ("exploration",
          "exhaustive enumeration of environment decisions: message sequences x protocol versions x every split point of the TCP byte stream (FIONREAD-synchronised fragments) read by the real Codec; per-type length limits; handshake script",
          "c19",
          "The real Codec reads from a loopback TcpStream; the writer delivers the next fragment only when the reader has consumed the previous one (no sleeps). Alphabet of 718 items (all message types with real content, Headers with 0..65 items, attachments of 0..100 000 bytes, every unknown type byte x three body lengths) x versions {1,2,3,1000}: every single item and the stated groups of pairs (and triples in thorough) at every single split point, and every pair of split points for streams <= 96 bytes. Received messages must equal the sent sequence (header batches of <= 32 with correct 'remaining', attachment chunks, Unknown skipped without desync). Every type x boundary and over-limit announced lengths, wrong magic, header counts inconsistent with length: refused with 0 body bytes consumed and no allocation of the announced size. Handshake: negotiated version = min for 8 remote versions, genesis mismatch, self-connect, wrong first message.",
-         "Delays beyond the codec's own I/O timeouts are outside the property. Per-type limit = 4 x nominal size.",
+         "Delays beyond the codec's own I/O timeouts are outside the property. Per-type limit = 4 x nominal size. Handshake part: versions x genesis x self-connection, and the Hand/Shake frame followed by the peer's next message in the same byte stream (coalesced and cut at 5 points): the codec must then read that message.",
          "DESIGN.md §4 C19"),
  "C20": ("exploration",
          "bounded-exhaustive product of seeds x derivation paths x amounts x switch modes x builder generations; blinding arithmetic over all small signed multisets and orders against scalar arithmetic mod n; builder multisets",
          "c20",
          "derive_key/commit determinism (twice and from a re-created keychain) and commit = amount*H + key*G for 3 seeds x 781 paths (depth 0..4) x 6 amounts x 2 switch modes (complete in thorough, counted pairwise cover in quick); proof create/verify/rewind with own seed exact, other seeds None, view keys; all signed multisets of size <= 3 over {zero, 4 keys} in every order through blind_sum/add/split vs 256-bit scalar arithmetic written in the harness; all balancing input/output/fee multisets through the three builder functions; reward::output for 3 fees x paths x generations.",
-         "LegacyProofBuilder recovers depth/switch only for depth 3 + Regular (message layout); view keys cannot pass hardened steps. One known finding (view key + Regular switch unimplemented), two defects repaired.",
+         "LegacyProofBuilder recovers depth/switch only for depth 3 + Regular (message layout); view keys cannot pass hardened steps; child view keys are built both by public derivation and by ViewKey::create on the privately derived key and must answer alike. One known finding (view key + Regular switch unimplemented), two defects repaired.",
          "DESIGN.md §4 C20"),
 }
 
